@@ -107,11 +107,16 @@ Definition r2a_ref_obs (W : Z) (s : r2a_ref) : list Z :=
 Definition r2a_done_ok (tv : bool) (i : r2a_in) : Prop :=
   b_done i = true -> b_reset i = false -> tv = false /\ b_load i = false.
 
-(* number of accepted beats / of effective load pulses along a run of the reference machine *)
-Fixpoint r2a_count (DW : Z) (s : r2a_ref) (ins : list r2a_in) : Z * Z :=
-  match ins with
-  | [] => (0, 0)
-  | i :: rest =>
-      let '(acc, lds) := r2a_count DW (r2a_ref_step DW s i) rest in
-      (acc + b2z (r2a_accepted (rb_tvalid s) i), lds + b2z (r2a_loadp (rb_active s) i))
-  end.
+
+(* ------------------------------------------------------------------ control FSMs (extension) *)
+(* VitisKernelFSM: IDLE(0) -start-> STARTED(1) -load_outs-> OUTPUTS LOADED(2) -all_sent-> DONE(3) -> IDLE *)
+Definition vk_next (s : Z) (start load sent : bool) : Z :=
+  if s =? 0 then (if start then 1 else 0)
+  else if s =? 1 then (if load then 2 else 1)
+  else if s =? 2 then (if sent then 3 else 2)
+  else 0.
+
+(* Axi2ClkFSM: what a handshake with target n must produce on (clk_out, load_outs), one pair per cycle:
+   the handshake cycle itself, n clock pulses (high, low), load_outs for exactly one cycle, then idle *)
+Definition a2c_expected (n : nat) : list (Z * Z) :=
+  (0, 0) :: concat (repeat [(1, 0); (0, 0)] n) ++ [(0, 1); (0, 0)].
